@@ -70,18 +70,43 @@ impl KeyDetails for RecKey {
     }
 }
 
-fn native(alg: PublicKeyAlgorithm) -> bool {
-    matches!(alg, PublicKeyAlgorithm::Ed25519 | PublicKeyAlgorithm::Ed448)
+/// shape of a parseable signature value per algorithm
+enum Shape { Native(usize), TwoMpis, OneMpi }
+
+fn shape(alg: PublicKeyAlgorithm) -> Shape {
+    match alg {
+        PublicKeyAlgorithm::Ed25519 => Shape::Native(64),
+        PublicKeyAlgorithm::Ed448 => Shape::Native(114),
+        PublicKeyAlgorithm::EdDSALegacy | PublicKeyAlgorithm::ECDSA | PublicKeyAlgorithm::DSA => Shape::TwoMpis,
+        _ => Shape::OneMpi,
+    }
+}
+
+/// the digest as the octets of a fake signature (fixed width, never starting with 0)
+fn encode(alg: PublicKeyAlgorithm, data: &[u8]) -> SignatureBytes {
+    match shape(alg) {
+        Shape::Native(n) => {
+            let mut v = data.to_vec();
+            v.resize(n, 0xAA);
+            SignatureBytes::Native(v.into())
+        }
+        Shape::TwoMpis => {
+            let h = data.len() / 2;
+            let mut r = vec![1u8]; r.extend_from_slice(&data[..h]);
+            let mut s = vec![1u8]; s.extend_from_slice(&data[h..]);
+            SignatureBytes::Mpis(vec![Mpi::from_slice(&r), Mpi::from_slice(&s)])
+        }
+        Shape::OneMpi => {
+            let mut r = vec![1u8]; r.extend_from_slice(data);
+            SignatureBytes::Mpis(vec![Mpi::from_slice(&r)])
+        }
+    }
 }
 
 impl SigningKey for RecKey {
     fn sign(&self, _pw: &Password, _hash: HashAlgorithm, data: &[u8]) -> pgp::errors::Result<SignatureBytes> {
         self.log.borrow_mut().push(data.to_vec());
-        if native(self.inner.algorithm()) {
-            Ok(SignatureBytes::Native(data.to_vec().into()))
-        } else {
-            Ok(SignatureBytes::Mpis(vec![Mpi::from_slice(data)]))
-        }
+        Ok(encode(self.inner.algorithm(), data))
     }
     fn hash_alg(&self) -> HashAlgorithm {
         HashAlgorithm::Sha256
@@ -91,21 +116,15 @@ impl SigningKey for RecKey {
 impl VerifyingKey for RecKey {
     fn verify(&self, _hash: HashAlgorithm, data: &[u8], sig: &SignatureBytes) -> pgp::errors::Result<()> {
         self.log.borrow_mut().push(data.to_vec());
-        let presented: Vec<u8> = match sig {
-            SignatureBytes::Native(b) => b.to_vec(),
-            SignatureBytes::Mpis(m) => m.first().map(|m| m.as_ref().to_vec()).unwrap_or_default(),
-        };
-        // an MPI strips leading zero octets
-        let want: &[u8] = if matches!(sig, SignatureBytes::Mpis(_)) {
-            let mut d = data;
-            while let [0, rest @ ..] = d {
-                d = rest;
+        let want = encode(self.inner.algorithm(), data);
+        let same = match (sig, &want) {
+            (SignatureBytes::Native(a), SignatureBytes::Native(b)) => a == b,
+            (SignatureBytes::Mpis(a), SignatureBytes::Mpis(b)) => {
+                a.len() == b.len() && a.iter().zip(b.iter()).all(|(x, y)| x.as_ref() == y.as_ref())
             }
-            d
-        } else {
-            data
+            _ => false,
         };
-        if presented == want {
+        if same {
             Ok(())
         } else {
             Err(pgp::errors::Error::from(std::io::Error::other("recording key: digest mismatch")))
